@@ -37,7 +37,8 @@ test, so that it cannot run twice with the same operands (ValueError); (key doma
 are included in the partitions it was built over, decided in a partition algebra evaluated from the DesignPartitions
 getters' own source (cells over: in the main crossing / complex window / derived / source); (backend unsat) the
 pyunigen sampling call, which ends the process on an unsatisfiable formula, is dominated by a satisfiability test with
-an empty early return, and the pycmsgen adapter maps 'no model' to the empty result.
+an empty early return, and the pycmsgen adapter maps 'no model' to the empty result; (no crossing) every lookup of a
+per-crossing list by the main-crossing index in the combinatoric sampler is reached only when the block has crossings.
 """
 NOT_DECIDED = "KeyError / IndexError from data-dependent indices (layout arithmetic, user level names), exceptions raised inside user predicates, solver processes that fail, and designs that the constructors should have refused."
 
@@ -843,6 +844,47 @@ def rule_backend_unsat(ctx):
               "call_cmsgen_python returns the empty result when the solver reports no model", "call_cmsgen_python no longer maps 'no model' to the empty result: %s" % Fc.cases())
 
 
+PER_CROSSING_LISTS = ("crossings", "crossing_sustain_counts", "crossing_weights", "crossing_sizes", "preamble_sizes")
+
+
+def rule_no_crossing(ctx):
+    """A block may have no crossing at all (MultiCrossBlock(design, [], ..)); the combinatoric sampler says so itself by testing
+    `block.crossings == []` at most sites that pick the main crossing.  Every subscript of a per-crossing list by the main-crossing
+    index must therefore be reached only when the block has crossings (contradiction rule: guarded at most sites => guarded at all)."""
+    R = "C08.no-crossing"
+    n = 0
+    for f in ctx.repo.all_functions:
+        if isinstance(f.node, ast.Lambda) or f.module.short not in ("random", "design_partition"):
+            continue
+        F = None
+        for st in statements(f.node):
+            if isinstance(st, (ast.If, ast.While)):
+                scan = list(ast.walk(st.test))
+            elif isinstance(st, ast.For):
+                scan = list(ast.walk(st.iter))
+            elif isinstance(st, (ast.With, ast.Try)):
+                continue
+            else:
+                scan = list(ast.walk(st))
+            for x in scan:
+                if isinstance(x, ast.Subscript) and isinstance(x.ctx, ast.Load) and dotted(x.value) and dotted(x.value).split(".")[-1] in PER_CROSSING_LISTS and \
+                        dotted(x.slice) and dotted(x.slice).split(".")[-1] == "main_crossing":
+                    F = F or Facts(f)
+                    conds = F.conds(st)
+                    if isinstance(st, ast.While):
+                        # the loop test itself may carry the guard as an earlier conjunct
+                        from ..sym import cond_literals as _cl
+                        conds = conds + [c_ for c_ in _cl(st.test, True) if "crossings" in c_]
+                    n += 1
+                    ok = any(c_.replace(" ", "") in ("([]!=block.crossings)", "([]!=self._block.crossings)", "nonempty(block.crossings)", "nonempty(self._block.crossings)",
+                                                     "block.crossings", "self._block.crossings") for c_ in conds)
+                    ctx.check(ok, R, f, "%s under %s" % (ast.unparse(x), [c_ for c_ in conds if "crossings" in c_]),
+                              "the main crossing is looked up only when the block has crossings",
+                              "%s is evaluated without a preceding `crossings != []` test (path condition %s), while the other sites of the combinatoric sampler guard the same lookup: "
+                              "RandomGen raises IndexError for a block without crossings (the SAT samplers return sequences for it)" % (ast.unparse(x), conds), x)
+    ctx.require(n >= 6, "only %d main-crossing lookups found (7 confirmed by hand)" % n)
+
+
 def check(ctx):
     repo = ctx.repo
     cg = CallGraph(repo)
@@ -859,6 +901,7 @@ def check(ctx):
     rule_remove_once(ctx, reach)
     rule_key_domain(ctx)
     rule_backend_unsat(ctx)
+    rule_no_crossing(ctx)
 
     mod = sys.modules[__name__]
     C = "sweetpea/_internal/constraint.py"
@@ -887,6 +930,9 @@ def check(ctx):
     control(ctx, mod, "pyunigen is called without asking for satisfiability first",
             lambda s: variants.in_function(s, "sweetpea/_internal/core/generate/tools/unigen.py", "call_unigen_python",
                                            "    if cryptominisat_is_satisfiable(input_file, docker_mode=False) is False:\n        return \"\"\n", "    pass\n"), "C08.backend-unsat")
+    control(ctx, mod, "main crossing searched in a block without crossings",
+            lambda s: variants.in_function(s, "sweetpea/_internal/design_partition.py", "DesignPartitions.__init__",
+                                           "while (block.crossings != [] and block.crossing_sustain_counts[self.main_crossing] != 1):", "while (block.crossing_sustain_counts[self.main_crossing] != 1):"), "C08.no-crossing")
     ctx.min_instances("C08.emptiness", 10)
     ctx.min_instances("C08.window-bound", 4)
     ctx.min_instances("C08.divisor", 25)
@@ -896,3 +942,4 @@ def check(ctx):
     ctx.min_instances("C08.key-domain", 5)
     ctx.min_instances("C08.remove-once", 1)
     ctx.min_instances("C08.backend-unsat", 2)
+    ctx.min_instances("C08.no-crossing", 6)
